@@ -39,6 +39,8 @@ import Nitime.Generated.Grids
 import Nitime.Generated.Methods
 import Nitime.Model.C05Len
 import Nitime.Generated.GridLens
+import Nitime.Model.C05Src
+import Nitime.Generated.FreqSrc
 import Nitime.Model.CohSession
 import Nitime.Generated.SetInput
 
@@ -127,6 +129,16 @@ def handleVec (args : List String) : String :=
     | none, _, _, _, _, _ => "no-such-site"
     | _, none, _, _, _, _ => "no-such-estimator"
     | _, _, _, _, _, _ => "bad-args"
+  | ["freqlens", cls, fn, side, nd, nf] =>
+    -- `<number of frequencies> <number of spectral values>` of the analyzer class `cls` on the estimator `fn` (`side` = one|two),
+    -- `nd` samples, `NFFT` entry `nf` of the method dict; a getter outside the call is taken to use `method['NFFT'] or n`
+    match Nitime.Generated.FreqSrc.pairs.lookup cls, lookupLen fn, nd.toNat?, parseOptNat? nf with
+    | some p, some ls, some d, some f =>
+      let r := p.lengths ls (.ite .nfftTruthy .nfft .data) (side == "one") ⟨d, f, none⟩
+      toString r.1 ++ " " ++ toString r.2
+    | none, _, _, _ => "no-such-class"
+    | _, none, _, _ => "no-such-estimator"
+    | _, _, _, _ => "bad-args"
   | ["lens", fn, nd, nf, sk] =>
     -- `<grid length> <points of the transform used> <is it the supplied one 0/1>`
     match lookupLen fn, nd.toNat?, parseOptNat? nf, parseOptNat? sk with
